@@ -229,6 +229,26 @@ func (x *Ex) genFuncsMore(body *LeanFile) {
 		{"internal/extractor/embed", "ImageExtractor", "replaceLazySrcsetAttr"},
 		{"internal/extractor/embed", "ImageExtractor", "createFigCaption"},
 	})
+	// the OpenGraph parser: what Model/OpenGraph.lean models
+	x.bodyGroup(body, "openGraphBodies", []string{"C14"}, [][3]string{
+		{"internal/markup/opengraph", "", "NewParser"},
+		{"internal/markup/opengraph", "Parser", "parseMetaTags"},
+		{"internal/markup/opengraph", "ImagePropParser", "Parse"},
+		{"internal/markup/opengraph", "ImagePropParser", "Verify"},
+		{"internal/markup/opengraph", "ProfilePropParser", "Parse"},
+		{"internal/markup/opengraph", "ProfilePropParser", "GetFullName"},
+		{"internal/markup/opengraph", "ArticlePropParser", "Parse"},
+		{"internal/markup/opengraph", "Parser", "Title"},
+		{"internal/markup/opengraph", "Parser", "Type"},
+		{"internal/markup/opengraph", "Parser", "URL"},
+		{"internal/markup/opengraph", "Parser", "Images"},
+		{"internal/markup/opengraph", "Parser", "Description"},
+		{"internal/markup/opengraph", "Parser", "Publisher"},
+		{"internal/markup/opengraph", "Parser", "Author"},
+		{"internal/markup/opengraph", "Parser", "Article"},
+		{"internal/markup/opengraph", "Parser", "OptOut"},
+		{"internal/markup/opengraph", "PrefixNameList", "setDefault"},
+	})
 	// the prefix test whose success licenses `linkHref[lenPrefix:]` in PrevNextFinder.FindOutlink
 	x.bodyStmts(body, "internal/stringutil", "", "HasPrefixIgnoreCase", "hasPrefixIgnoreCaseBody", "C01", "C16")
 }
